@@ -216,5 +216,23 @@ theorem step_refines (kind : Kind) (h : Nat → Nat) (s : State) (op : Op) (hs :
     simp only [step, Spec.step, hav, Bool.not_true, Bool.false_eq_true, if_false, abs_get,
       (hs.get t).equal (hs.get u) kind, Option.map_some]
     refine ⟨by first | trivial | rfl, fun s' o e => by cases e; exact hs⟩
+  | notEqual t u =>
+    simp only [step, Spec.step, hav, Bool.not_true, Bool.false_eq_true, if_false, abs_get,
+      (hs.get t).equal (hs.get u) kind, Option.map_some]
+    refine ⟨by first | trivial | rfl, fun s' o e => by cases e; exact hs⟩
+  | iterBack t =>
+    simp only [step, Spec.step, hav, Bool.not_true, Bool.false_eq_true, if_false, Option.map_some, abs_get]
+    refine ⟨?_, fun s' o e => by cases e; exact hs⟩
+    simp [Table.iterate, List.map_reverse]
+  | entryAt t pos =>
+    simp only [step, Spec.step, hav, Bool.not_true, Bool.false_eq_true, if_false, abs_get]
+    have hg : (s.get t).iterate[pos]? = ((s.get t).order[pos]?).map (s.get t).entry := by
+      simp [Table.iterate, List.getElem?_map]
+    rw [hg]
+    cases hh : (s.get t).order[pos]? with
+    | none => simp
+    | some id =>
+      simp only [Option.map_some]
+      refine ⟨by first | trivial | rfl, fun s' o e => by cases e; exact hs⟩
 
 end Nstd.Hash
